@@ -16,6 +16,7 @@ pub struct RunOut {
     pub code: Option<i32>,
     pub stdout: Vec<u8>,
     pub stderr: String,
+    pub timed_out: bool,
 }
 
 impl RunOut {
@@ -30,18 +31,59 @@ impl RunOut {
     }
 }
 
-/// the real binary, no proxies, no logging, no inherited stdin
+/// the real binary, no proxies, no logging, no inherited stdin; killed after `CLI_TIMEOUT` (a run that does not end is an
+/// observation, not a reason for the check to hang): `code` is then `None` and `timed_out` is set
+pub const CLI_TIMEOUT: std::time::Duration = std::time::Duration::from_secs(90);
+
 pub fn run_cli(args: &[String], cwd: &Path) -> RunOut {
+    use std::io::Read;
     let mut c = Command::new(cli_binary());
     c.args(args).current_dir(cwd).stdin(Stdio::null()).stdout(Stdio::piped()).stderr(Stdio::piped());
     for v in ["http_proxy", "HTTP_PROXY", "https_proxy", "HTTPS_PROXY", "all_proxy", "ALL_PROXY", "RUST_LOG", "RUST_BACKTRACE"] {
         c.env_remove(v);
     }
     c.env("NO_PROXY", "*").env("no_proxy", "*");
-    match c.output() {
-        Ok(o) => RunOut { code: o.status.code(), stdout: o.stdout, stderr: String::from_utf8_lossy(&o.stderr).into_owned() },
-        Err(e) => RunOut { code: None, stdout: vec![], stderr: format!("cannot run {}: {}", cli_binary().display(), e) },
-    }
+    let mut child = match c.spawn() {
+        Ok(ch) => ch,
+        Err(e) => return RunOut { code: None, stdout: vec![], stderr: format!("cannot run {}: {}", cli_binary().display(), e), timed_out: false },
+    };
+    let mut so = child.stdout.take().expect("stdout");
+    let mut se = child.stderr.take().expect("stderr");
+    let t_out = std::thread::spawn(move || {
+        let mut b = Vec::new();
+        let _ = so.read_to_end(&mut b);
+        b
+    });
+    let t_err = std::thread::spawn(move || {
+        let mut b = Vec::new();
+        let _ = se.read_to_end(&mut b);
+        b
+    });
+    let start = std::time::Instant::now();
+    let mut timed_out = false;
+    let status = loop {
+        match child.try_wait() {
+            Ok(Some(st)) => break Some(st),
+            Ok(None) => {
+                if start.elapsed() > CLI_TIMEOUT {
+                    timed_out = true;
+                    // (children of the binary - rustfmt - hold the pipes: kill the whole group is not available here;
+                    // killing the binary closes its ends, the reader threads end when rustfmt exits or is orphaned)
+                    let _ = child.kill();
+                    let _ = child.wait();
+                    break None;
+                }
+                std::thread::sleep(std::time::Duration::from_millis(15));
+            }
+            Err(_) => break None,
+        }
+    };
+    let (stdout, stderr) = if timed_out {
+        (vec![], format!("killed after {} s without a result", CLI_TIMEOUT.as_secs()))
+    } else {
+        (t_out.join().unwrap_or_default(), String::from_utf8_lossy(&t_err.join().unwrap_or_default()).into_owned())
+    };
+    RunOut { code: status.and_then(|s| s.code()), stdout, stderr, timed_out }
 }
 
 /// every regular file below `root` (relative path ↦ content)
